@@ -14,6 +14,7 @@ import (
 	"testing/synctest"
 	"time"
 
+	goheader "github.com/celestiaorg/go-header"
 	ds "github.com/ipfs/go-datastore"
 	logging "github.com/ipfs/go-log/v2"
 	"github.com/libp2p/go-libp2p/core/crypto"
@@ -273,6 +274,9 @@ type Node struct {
 	Retr  bool
 	rdone chan struct{}
 	Hook  *Hook
+	// P2P-ingress scenarios: the go-header stores handed to NewManager (nil otherwise)
+	HStore goheader.Store[*types.SignedHeader]
+	DStore goheader.Store[*types.Data]
 }
 
 // Hook lets a scenario act at the instant a block commits (the SetHeight write of height HoldAt /
@@ -328,7 +332,7 @@ func (n *Node) boot() {
 	}
 	ctx, cancel := context.WithCancel(context.Background())
 	n.cancel = cancel
-	m, err := block.NewManager(context.Background(), nil, baseConfig(n.RootDir), n.Chain.Genesis, n.Store, n.Exec, &Seq{}, n.DA, quietLogger(), nil, nil,
+	m, err := block.NewManager(context.Background(), nil, baseConfig(n.RootDir), n.Chain.Genesis, n.Store, n.Exec, &Seq{}, n.DA, quietLogger(), n.HStore, n.DStore,
 		&bcast[*types.SignedHeader]{}, &bcast[*types.Data]{}, block.NopMetrics(), 1, 1, block.DefaultManagerOptions())
 	if err != nil {
 		n.BootErr = err
